@@ -7,6 +7,7 @@ import (
 	"fmt"
 	"os"
 	"path/filepath"
+	"reflect"
 	"regexp"
 	"strings"
 
@@ -71,6 +72,82 @@ func decode(t uint, b []byte, skip bool) (blk ledger.Block, err error) {
 		return nil, fmt.Errorf("panic: %v", pv)
 	}
 	return
+}
+
+// ---- VerifyConfig flags, enumerated by reflection so that a new flag is picked up ----
+const skipFlag = "SkipBodyHashValidation"
+const sscFlag = "EnableByronSscProofHashValidation"
+
+func cfgFlags() []string {
+	var out []string
+	t := reflect.TypeOf(lcommon.VerifyConfig{})
+	for i := 0; i < t.NumField(); i++ {
+		if t.Field(i).Type.Kind() == reflect.Bool && t.Field(i).IsExported() {
+			out = append(out, t.Field(i).Name)
+		}
+	}
+	return out
+}
+
+func mkCfg(flags []string, bits uint) lcommon.VerifyConfig {
+	var cfg lcommon.VerifyConfig
+	v := reflect.ValueOf(&cfg).Elem()
+	for i, f := range flags {
+		v.FieldByName(f).SetBool(bits&(1<<uint(i)) != 0)
+	}
+	return cfg
+}
+
+func cfgName(flags []string, bits uint) string {
+	var on []string
+	for i, f := range flags {
+		if bits&(1<<uint(i)) != 0 {
+			on = append(on, f)
+		}
+	}
+	if len(on) == 0 {
+		return "default"
+	}
+	return strings.Join(on, "+")
+}
+
+func has(flags []string, bits uint, name string) bool {
+	for i, f := range flags {
+		if f == name {
+			return bits&(1<<uint(i)) != 0
+		}
+	}
+	return false
+}
+
+func decodeCfg(t uint, b []byte, cfg lcommon.VerifyConfig) (blk ledger.Block, err error) {
+	p, pv := vh.Recover(func() { blk, err = ledger.NewBlockFromCbor(t, b, cfg) })
+	if p {
+		return nil, fmt.Errorf("panic: %v", pv)
+	}
+	return
+}
+
+// struct_ok under a configuration: everything the decoder checks besides the
+// body binding.  The only flag with a decode-time effect the model knows is
+// EnableByronSscProofHashValidation (full ssc_proof comparison instead of the
+// shape check); any other flag is modelled as having no effect at decode time.
+func structOKCfg(blk ledger.Block, skipOK bool, ssc bool) bool {
+	if !skipOK {
+		return false
+	}
+	if mb, ok := blk.(*byron.ByronMainBlock); ok {
+		bad := false
+		p, _ := vh.Recover(func() {
+			if ssc {
+				bad = mb.ValidateSscProof() != nil
+			} else {
+				bad = mb.ValidateSscProofShape() != nil
+			}
+		})
+		return !p && !bad
+	}
+	return true
 }
 
 func structOK(t uint, b []byte) (ledger.Block, bool) {
@@ -147,7 +224,7 @@ func gen(out string) error {
 	sb.WriteString("   minRawLength literal of the ValidateBlockBodyHash call in ledger/<era>/<era>.go, the position of\n")
 	sb.WriteString("   the body hash in the header body (located in the fixture by the value of BlockBodyHash()),\n")
 	sb.WriteString("   and whether ByronTransaction.UnmarshalCBOR demands exactly two elements.  Do not edit. *)\n")
-	sb.WriteString("From V Require Import Lib.Base C34.Model.\nLocal Open Scope N_scope.\n\nDefinition era_table : list era_row := [\n")
+	sb.WriteString("From Coq Require Import String.\nFrom V Require Import Lib.Base C34.Model.\nLocal Open Scope string_scope.\nLocal Open Scope N_scope.\n\nDefinition era_table : list era_row := [\n")
 	sb.WriteString("  {| r_type := 0; r_mode := MByronEbb; r_struct := 3; r_hashed := 0; r_idx := 0 |}")
 	r := vh.NewRng(1)
 	if n, err := structCount(0, ebbItem(r, 2)); err != nil || n != 3 {
@@ -214,6 +291,19 @@ func gen(out string) error {
 	default:
 		return fmt.Errorf("ByronTransaction.UnmarshalCBOR: length check on txArray not recognised")
 	}
+	flags := cfgFlags()
+	skipIdx := -1
+	q := make([]string, len(flags))
+	for i, f := range flags {
+		q[i] = `"` + f + `"`
+		if f == skipFlag {
+			skipIdx = i
+		}
+	}
+	if skipIdx < 0 {
+		return fmt.Errorf("VerifyConfig has no bool field %s", skipFlag)
+	}
+	fmt.Fprintf(&sb, "(* the bool fields of common.VerifyConfig (reflection), in declaration order; a configuration is\n   the list of their values.  Body validation is enabled iff the flag at skip_flag_index is false. *)\nDefinition config_flags : list string := [%s].\nDefinition skip_flag_index : nat := %d.\n\n", strings.Join(q, "; "), skipIdx)
 	fmt.Fprintf(&sb, "(* ByronTransaction.UnmarshalCBOR rejects a transaction array that does not have exactly 2 elements *)\nDefinition byron_tx_exact : bool := %s.\n", exact)
 	if out == "" {
 		fmt.Print(sb.String())
@@ -307,6 +397,15 @@ type bcase struct {
 	StructOK bool   `json:"struct_ok"`
 	Accepted bool   `json:"accepted"`
 	HdrHash  string `json:"header_body_hash"`
+	// every other VerifyConfig flag combination
+	Cfgs []cfgObs `json:"configs"`
+}
+
+type cfgObs struct {
+	Name     string `json:"config"`
+	Skip     bool   `json:"skip"`
+	StructOK bool   `json:"struct_ok"`
+	Accepted bool   `json:"accepted"`
 }
 
 type state struct {
@@ -320,6 +419,7 @@ type state struct {
 func (s *state) runCase(bc bcase, toCoq bool) {
 	c := s.c
 	b := vh.UnHex(bc.Block)
+	bc.Cfgs = nil
 	c.Begin(bc)
 	blk, sok := structOK(bc.Type, b)
 	bc.StructOK = sok
@@ -338,7 +438,7 @@ func (s *state) runCase(bc bcase, toCoq bool) {
 	if len(c.Res.Samples) < 6 && bc.Mutation != "original" && sok {
 		c.Res.Sample(map[string]any{"era": bc.Era, "mutation": bc.Mutation, "size": len(b), "accepted": bc.Accepted})
 	}
-	it, n, perr := vh.ParseItem(b)
+	it, _, perr := vh.ParseItem(b)
 	// ---- monitor ----
 	if bc.Mutation == "original" && !bc.Accepted {
 		c.Res.Violate("monitor", "real-block-rejected:"+bc.Era, "a real block does not decode: "+err.Error(), bc)
@@ -346,37 +446,71 @@ func (s *state) runCase(bc bcase, toCoq bool) {
 	if bc.Accepted && !sok {
 		c.Res.Violate("monitor", "accepted-only-with-validation:"+bc.Era, "accepted with body validation but rejected without", bc)
 	}
-	if bc.Accepted && perr == nil {
+	// the binding, checked on an accepted block under configuration cfg
+	// (sfx = "" for the default, ":cfg=<flags>" otherwise)
+	accepted := func(sfx string) {
+		if perr != nil {
+			return
+		}
 		hdr := vh.Hex(untag(it).Xs[0].Enc())
 		var committed string
 		if bc.Type >= 2 {
 			committed = vh.Hex(bodyBytes(it))
 			want, ok := oracleCommit(bc.Type, it)
 			if !ok || vh.Hex(want) != bc.HdrHash {
-				c.Res.Violate("monitor", "accepted-with-wrong-body-hash:"+bc.Era+":"+mutClass(bc.Mutation),
+				c.Res.Violate("monitor", "accepted-with-wrong-body-hash:"+bc.Era+":"+mutClass(bc.Mutation)+sfx,
 					fmt.Sprintf("accepted although the header carries %s and the body hashes to %x", bc.HdrHash, want), bc)
 			}
 		} else if bc.Type == 1 {
 			v, extra, ok := byronView(it)
 			committed = v
 			if !ok {
-				c.Res.Violate("monitor", "byron-accepted-unexpected-shape", "accepted Byron block has not the [header, [txs, ssc, dlg, upd], extra] shape", bc)
+				c.Res.Violate("monitor", "byron-accepted-unexpected-shape"+sfx, "accepted Byron block has not the [header, [txs, ssc, dlg, upd], extra] shape", bc)
 			}
 			if extra {
-				c.Res.Violate("monitor", "byron-tx-extra-element-accepted", "a Byron transaction with more than [body, witnesses] is accepted; the extra element is covered by no proof", bc)
+				c.Res.Violate("monitor", "byron-tx-extra-element-accepted"+sfx, "a Byron transaction with more than [body, witnesses] is accepted; the extra element is covered by no proof", bc)
 			}
 		} else {
 			committed = vh.Hex(untag(it).Xs[1].Enc())
 		}
-		key := fmt.Sprintf("%d/%s", bc.Type, hdr)
+		key := fmt.Sprintf("%d/%s/%s", bc.Type, hdr, sfx)
 		if prev, ok := s.seen[key]; ok && prev != committed {
-			c.Res.Violate("monitor", "two-bodies-one-header:"+bc.Era+":"+mutClass(bc.Mutation),
+			c.Res.Violate("monitor", "two-bodies-one-header:"+bc.Era+":"+mutClass(bc.Mutation)+sfx,
 				fmt.Sprintf("two blocks with the same header and different committed body content are both accepted (other: %s)", s.how[key]), bc)
 		} else if !ok {
 			s.seen[key] = committed
 			s.how[key] = bc.Mutation
 		}
-		_ = n
+	}
+	if bc.Accepted {
+		accepted("")
+	}
+	// every other flag combination of VerifyConfig
+	flags := cfgFlags()
+	for bits := uint(1); bits < 1<<uint(len(flags)); bits++ {
+		name := cfgName(flags, bits)
+		skip := has(flags, bits, skipFlag)
+		_, e := decodeCfg(bc.Type, b, mkCfg(flags, bits))
+		o := cfgObs{Name: name, Skip: skip, Accepted: e == nil}
+		if skip {
+			o.StructOK = blk != nil
+		} else {
+			o.StructOK = structOKCfg(blk, blk != nil, has(flags, bits, sscFlag))
+		}
+		bc.Cfgs = append(bc.Cfgs, o)
+		sfx := ":cfg=" + name
+		if bc.Mutation == "original" && !o.Accepted {
+			c.Res.Violate("monitor", "real-block-rejected:"+bc.Era+sfx, "a real block does not decode under this configuration", bc)
+		}
+		if skip || !o.Accepted {
+			continue
+		}
+		// flags may only ADD checks: what a validating configuration accepts, the default accepts
+		if !bc.Accepted {
+			c.Res.Violate("monitor", "config-accepts-what-default-rejects:"+bc.Era+":"+mutClass(bc.Mutation)+sfx,
+				"a block rejected under the default configuration is accepted with body validation still enabled", bc)
+		}
+		accepted(sfx)
 	}
 	if toCoq {
 		s.cf.Add(fmt.Sprintf("(%d, %s)", bc.Type, vh.Bytes(b)), bc)
@@ -629,6 +763,92 @@ var bodyMuts = []mut{
 		}
 		return true
 	}},
+}
+
+// Byron main block: substitute one payload of the body (0 txs, 1 ssc, 2 dlg, 3 upd)
+func byronPayloadMut(j int, name string) mut {
+	return mut{name, func(r *vh.Rng, t uint, it *vh.Item) bool {
+		if t != 1 {
+			return false
+		}
+		body := untag(untag(it).Xs[1])
+		if body.K != vh.KArr || len(body.Xs) != 4 {
+			return false
+		}
+		p := untag(body.Xs[j])
+		// arrays inside the payload (the payload root first)
+		arrs := []*vh.Item{}
+		for _, x := range nodes([]*vh.Item{p}) {
+			if x.K == vh.KArr {
+				arrs = append(arrs, x)
+			}
+		}
+		if len(arrs) == 0 {
+			return false
+		}
+		x := arrs[r.Intn(len(arrs))]
+		switch r.Intn(3) {
+		case 0: // re-frame
+			if x.F == vh.Findef {
+				x.F = vh.MinForm(uint64(len(x.Xs)))
+			} else {
+				x.F = vh.Findef
+			}
+		case 1: // widen the header
+			if x.F == vh.Findef || x.F == vh.F8 {
+				x.F = vh.MinForm(uint64(len(x.Xs)))
+				if x.F == vh.Fimm {
+					x.F = vh.F1
+				}
+			} else {
+				x.F = x.F + 1
+			}
+		default: // one more element
+			x.Xs = append(append([]*vh.Item{}, x.Xs...), vh.U(uint64(r.Intn(24))))
+			if x.F != vh.Findef {
+				x.F = vh.MinForm(uint64(len(x.Xs)))
+			}
+		}
+		return true
+	}}
+}
+
+func init() {
+	bodyMuts = append(bodyMuts,
+		byronPayloadMut(0, "byron-tx-payload-substituted"),
+		byronPayloadMut(1, "byron-ssc-payload-substituted"),
+		byronPayloadMut(2, "byron-dlg-payload-substituted"),
+		byronPayloadMut(3, "byron-upd-payload-substituted"),
+		// every era: one top-level body component (segment / Dijkstra body part) re-framed or widened
+		mut{"component-root-changed", func(r *vh.Rng, t uint, it *vh.Item) bool {
+			roots := bodyRoot(t, it)
+			if t == 8 && len(roots) == 1 && roots[0].K == vh.KArr {
+				roots = roots[0].Xs
+			}
+			var c []*vh.Item
+			for _, x := range roots {
+				if x.K == vh.KArr || x.K == vh.KMap {
+					c = append(c, x)
+				}
+			}
+			if len(c) == 0 {
+				return false
+			}
+			x := c[r.Intn(len(c))]
+			n := uint64(len(x.Xs))
+			if x.K == vh.KMap {
+				n /= 2
+			}
+			if x.F == vh.Findef {
+				x.F = vh.MinForm(n)
+			} else if r.Bool() || x.F == vh.F8 {
+				x.F = vh.Findef
+			} else {
+				x.F = x.F + 1
+			}
+			return true
+		}},
+	)
 }
 
 var headerMuts = []mut{
@@ -910,6 +1130,14 @@ func post(c *vh.Ctx) error {
 			predicted := bc.StructOK && holds
 			if predicted != bc.Accepted {
 				c.Res.Violate("correspondence", "model-vs-impl", fmt.Sprintf("model predicts accept=%v (struct_ok=%v, comparisons hold=%v), NewBlockFromCbor accept=%v [%s %s]", predicted, bc.StructOK, holds, bc.Accepted, bc.Era, bc.Mutation), bc)
+			}
+			// the comparisons do not depend on the other flags: with validation
+			// enabled the same set must hold, with the skip flag none
+			for _, o := range bc.Cfgs {
+				p := o.StructOK && (o.Skip || holds)
+				if p != o.Accepted {
+					c.Res.Violate("correspondence", "model-vs-impl:cfg="+o.Name, fmt.Sprintf("config %s: model predicts accept=%v (struct_ok=%v, skip=%v, comparisons hold=%v), NewBlockFromCbor accept=%v [%s %s]", o.Name, p, o.StructOK, o.Skip, holds, o.Accepted, bc.Era, bc.Mutation), bc)
+				}
 			}
 			if bc.StructOK && bc.Type >= 2 && strings.HasPrefix(t, "C") && first != bc.HdrHash {
 				c.Res.Violate("correspondence", "model-vs-impl-header-hash", fmt.Sprintf("model reads body hash %s from the header, BlockBodyHash() is %s", first, bc.HdrHash), bc)
